@@ -8,7 +8,7 @@ every content (ordering of values), randomness, progress under continuous input.
 """
 import ast
 
-from ..model import dotted, unparse, norm, walk_no_nested
+from ..model import dotted, unparse, norm, walk_no_nested, loop_exits, loop_of
 from ..rulelib import Ctx, short, reaching_defs, value_assigned
 from ..cachemodel import CacheModel
 from .c02 import rule_lockset
@@ -294,7 +294,7 @@ def _pass_shape(gen):
     return probs
   outer = body[0]
   for n in walk_no_nested(outer, include_self=False):
-    if isinstance(n, (ast.Break, ast.Return)):
+    if isinstance(n, (ast.Return, ast.Break)):      # a break of the drain loop abandons the rest of the snapshot too
       probs.append(('`%s` ends the pass (or the generator) early: metrics remaining in the snapshot are skipped / '
                     'StopIteration escapes choose_item' % type(n).__name__.lower(), n))
   inner = [s for s in ast.walk(outer) if isinstance(s, ast.While) and s is not outer]
